@@ -95,3 +95,13 @@ Theorem C17_parse_source_translated :
 Proof. exact parse_source_translated. Qed.
 Print Assumptions C17_parse_source_translated.
 
+
+Theorem S_parser_is_the_source_pieces :
+  forall (NN : Num) (l : list ascii), from_operations_l NN l = (if gen_dims_ok (N.of_nat
+    (Datatypes.length (gen_components l))) then match gen_components l with | [] => PErr | [a]
+    => PErr | [a; b] => match gen_component NN a with | Some ra => match gen_component NN b with
+    | Some rb => POk ra rb | None => PErr end | None => PErr end | a :: b :: _ :: _ => PErr end
+    else PErr).
+Proof. exact parser_is_the_source_pieces. Qed.
+Print Assumptions S_parser_is_the_source_pieces.
+
